@@ -154,6 +154,12 @@ static inline uint8_t *slot_end(int s) { return g_slot[s].data + SLOT_BYTES; }
 /* object of nbytes ending exactly at the trailing guard */
 static inline void *place_end(int s, size_t nbytes) { return slot_end(s) - nbytes; }
 static inline void *place_begin(int s) { return g_slot[s].data; }
+/* the guard page behind slot s readable and filled with a given byte pattern (element width ew), still not writable */
+static inline void guard_fill(int s, uint32_t v, int ew) {
+    uint8_t *g = slot_end(s); if (mprotect(g, PAGE, PROT_READ | PROT_WRITE)) { perror("mprotect guard"); exit(2); }
+    if (ew == 1) memset(g, (int)v, PAGE); else for (size_t i = 0; i < PAGE / 4; i++) ((uint32_t *)g)[i] = v;
+    if (mprotect(g, PAGE, PROT_READ)) { perror("mprotect guard"); exit(2); }
+}
 /* makes the guard page behind slot s readable (never written: zeros) or unmapped again */
 static inline void guard_readable(int s, int on) { if (mprotect(slot_end(s), PAGE, on ? PROT_READ : PROT_NONE)) { perror("mprotect guard"); exit(2); } }
 static inline void *place_mid(int s, size_t off) { return g_slot[s].data + off; }
